@@ -174,6 +174,24 @@ Definition ndp_process (s : st) (intf : N) (is_solicitation has_source_ll : bool
   else if negb has_source_ll then DNoSourceLL
   else should_announce s target intf.
 
+(* WHICH label is reported for a request that is not answered is not part of the property when
+   several reasons apply (the code may test them in any order): [arp_reasons] / [ndp_reasons] list
+   EVERY reason that applies; a reported label [d] is admissible when it is one of them, or DNone
+   (answered) when there is none.  [arp_process] / [ndp_process] above pick the first in the order of
+   the code the model was transcribed from; the Go oracle and Corr/Run_Announcer.v accept every
+   admissible label (checked nondeterminism), answering or not is decided by the list being empty. *)
+Definition reason_of (d : drop) : list drop := match d with DNone => [] | _ => [d] end.
+Definition arp_reasons (s : st) (intf mac op dst : N) (target : ip) : list drop :=
+  (if negb (N.eqb op 1) then [DArpReply] else []) ++
+  (if negb (N.eqb dst bcast) && negb (N.eqb dst mac) then [DEthDst] else []) ++
+  reason_of (should_announce s target intf).
+Definition ndp_reasons (s : st) (intf : N) (is_solicitation has_source_ll : bool) (target : ip) : list drop :=
+  (if negb is_solicitation then [DMsgType] else []) ++
+  (if negb has_source_ll then [DNoSourceLL] else []) ++
+  reason_of (should_announce s target intf).
+Definition admissible (rs : list drop) (d : drop) : bool :=
+  match rs with [] => drop_eqb d DNone | _ => existsb (drop_eqb d) rs end.
+
 (* --- histories --- *)
 Inductive upd := USet (name : N) (a : adv) | UDel (name : N).
 Definition apply_upd (s : st) (u : upd) : st :=
